@@ -576,6 +576,7 @@ static int run_replay(Ctx & cx, const std::string & file)
   return 0;
 }
 
+#ifndef REFDIFF_NO_MAIN
 int main(int argc, char ** argv)
 {
   Args a(argc, argv);
@@ -604,3 +605,4 @@ int main(int argc, char ** argv)
   fflush(res);
   return rc;
 }
+#endif
